@@ -127,19 +127,19 @@ class LinesearchSolver(NonlinearSolver):
                 if not np.isscalar(ref):
                     ref = ref.ravel()
 
-                if var_lower is not None:
-                    if self._lower_bounds is None:
-                        self._lower_bounds = np.full(len(system._outputs), -np.inf)
-                    if not np.isscalar(var_lower):
-                        var_lower = var_lower.ravel()
-                    self._lower_bounds[start:end] = (var_lower - ref0) / (ref - ref0)
+                scale = ref - ref0
+                lower = ((-np.inf if var_lower is None else np.ravel(var_lower)) - ref0) / scale
+                upper = ((np.inf if var_upper is None else np.ravel(var_upper)) - ref0) / scale
+                # A negative scaling factor (ref < ref0) reverses the axis, so the scaled lower
+                # bound comes from the physical upper bound and vice versa.
+                lower, upper = np.minimum(lower, upper), np.maximum(lower, upper)
 
-                if var_upper is not None:
-                    if self._upper_bounds is None:
-                        self._upper_bounds = np.full(len(system._outputs), np.inf)
-                    if not np.isscalar(var_upper):
-                        var_upper = var_upper.ravel()
-                    self._upper_bounds[start:end] = (var_upper - ref0) / (ref - ref0)
+                if self._lower_bounds is None:
+                    self._lower_bounds = np.full(len(system._outputs), -np.inf)
+                if self._upper_bounds is None:
+                    self._upper_bounds = np.full(len(system._outputs), np.inf)
+                self._lower_bounds[start:end] = lower
+                self._upper_bounds[start:end] = upper
 
                 start = end
         else:
